@@ -65,13 +65,14 @@ type seqRun struct {
 	div   *divergence
 	ops   map[string]int
 	finds []finding // quiescence findings (not minimised further)
+	opID  []int     // per script operation: id of the module it returned (0: none / skipped)
 }
 
 // replaySeq runs a script with one client on a fresh runtime and compares each
 // outcome with the strict model. It stops at the first divergence; otherwise
 // it closes the runtime and runs the quiescence checks.
 func replaySeq(s *seqScript) *seqRun {
-	run := &seqRun{ops: map[string]int{}}
+	run := &seqRun{ops: map[string]int{}, opID: make([]int, len(s.Ops))}
 	h := &hist{stamp: true, engine: s.Engine}
 	h.rt = wazero.NewRuntimeWithConfig(bg, rtConfig(s.Engine))
 	defer h.rt.Close(bg)
@@ -117,6 +118,9 @@ func replaySeq(s *seqScript) *seqRun {
 				ids[r.mod] = len(ids) + 1
 			}
 			id = ids[r.mod]
+		}
+		if results[i] != nil {
+			run.opID[i] = id
 		}
 		lo := lop{Client: 1, Kind: r.kind, Name: r.name, ID: id, Res: r.res, Call: r.call, Ret: r.ret, Err: r.err, X: o.X}
 		lo.fill()
@@ -229,6 +233,21 @@ func shrink(s *seqScript, d *divergence) (*seqScript, *seqRun) {
 	if best == nil {
 		return cur, replaySeq(cur)
 	}
+	// a close / isclosed that got its module from a lookup acts on the instantiate's module just as well
+	for i, o := range cur.Ops {
+		if o.Ref >= 0 && o.Ref < len(cur.Ops) && cur.Ops[o.Ref].K == kLookup && best.opID[o.Ref] != 0 {
+			for j := 0; j < o.Ref; j++ {
+				if cur.Ops[j].K.isInst() && best.opID[j] == best.opID[o.Ref] {
+					c := &seqScript{Engine: cur.Engine, FS: cur.FS, Ops: append([]sop(nil), cur.Ops...)}
+					c.Ops[i].Ref = j
+					if r := same(c); r != nil {
+						cur, best = c, r
+					}
+					break
+				}
+			}
+		}
+	}
 	for changed := true; changed; {
 		changed = false
 		for i := len(cur.Ops) - 1; i >= 0; i-- {
@@ -249,6 +268,23 @@ func shrink(s *seqScript, d *divergence) (*seqScript, *seqRun) {
 			c.Ops[i].K = k
 			if r := same(c); r != nil && r.div.At == best.div.At {
 				cur, best = c, r
+			}
+		}
+	}
+	// names: the anonymous name if it does not matter, else the first name
+	for i := range cur.Ops {
+		if !(cur.Ops[i].K.isInst() || cur.Ops[i].K == kLookup) {
+			continue
+		}
+		for _, n := range []int{anon, 0} {
+			if cur.Ops[i].N == n || (n == anon && cur.Ops[i].K == kHostInst) {
+				continue
+			}
+			c := &seqScript{Engine: cur.Engine, FS: cur.FS, Ops: append([]sop(nil), cur.Ops...)}
+			c.Ops[i].N = n
+			if r := same(c); r != nil && r.div.At == best.div.At {
+				cur, best = c, r
+				break
 			}
 		}
 	}
